@@ -45,6 +45,9 @@ def run_checks(sid, props):
     rc, o = sh(f"git -C /repo apply {d}/patch.diff")
     assert rc == 0, o
     results = {}
+    # the checks rewrite evidence/<id>.json on every run; what they write on a patched tree is not a
+    # record of the unchanged tree, so the files are put back afterwards
+    saved = {p: open(f"{VERIF}/evidence/{p}.json").read() for p in props if os.path.exists(f"{VERIF}/evidence/{p}.json")}
     try:
         for p in props:
             rc, o = sh(f"./check {p} --tier quick", cwd=VERIF)
@@ -53,6 +56,8 @@ def run_checks(sid, props):
             print(p, "exit", rc, *vio[:3], sep="\n   ")
     finally:
         sh("git -C /repo checkout -- .")
+        for p, text in saved.items():
+            open(f"{VERIF}/evidence/{p}.json", "w").write(text)
     return results
 
 
